@@ -117,7 +117,7 @@ def run(res, tier, seed, driver_ok):
                             res.violations.append({'key': 'ik-false-success:%s' % name, 'what': 'port IK reports success but the tolerances are not met (start displaced along one twist component)',
                                                    'input': {'function': name, 'component': k, 'factor': fac, 'S': S_t.tolist(), 'M': M_t.tolist(), 'T': T.tolist(), 'theta0': th_t.tolist()},
                                                    'observed': [float(np.linalg.norm(Vb[:3])), float(np.linalg.norm(Vb[3:]))]})
-                    if fac < 1 and (not okp or np.max(np.abs(np.asarray(thp) - th_t)) > 0):
+                    if fac < 1 and (not okp or G.gt(np.max(np.abs(np.asarray(thp) - th_t)), 0)):
                         res.violations.append({'key': 'ik-start-within-tolerance:%s' % name, 'what': 'a start that already meets the tolerances is not returned as it is with success',
                                                'input': {'function': name, 'component': k}, 'observed': [bool(okp), np.asarray(thp).tolist()]})
     res.stats['ik_targeted_starts'] = ik_targeted
